@@ -7,7 +7,7 @@ T  per-site correspondence: the real classes (Interval.compute_end, Node.update_
    loop_follow, Graph.post_order) run in fresh worker processes under several (PYTHONHASHSEED, hash salt)
    layouts, each reply compared with the Lean model (drv_C22).
 S  the property itself: classes of the shipped DEX/APK files decompiled by the real decompiler in fresh
-   processes under 8 (quick) / 64 (thorough) combinations of PYTHONHASHSEED x hash salt x order
+   processes under 8 (quick) / 18 (thorough: every order once) combinations of PYTHONHASHSEED x hash salt x order
    (methods alone, whole class first, reverse, class processed twice); every text must be byte-identical.
 The hash-salt dimension needs hook H2 (fixes/hook-H2-hashsalt.diff) in the tree under test: without it the
 check runs the PYTHONHASHSEED dimension only and ends as a tool failure (exit 2), never as a verdict.
@@ -49,6 +49,14 @@ PINS = [
     ("androguard/decompiler/basic_blocks.py", "BasicBlock.add_variable_declaration"),
     ("androguard/decompiler/control_flow.py", "short_circuit_struct"),
     ("androguard/decompiler/control_flow.py", "loop_follow"),
+    ("androguard/decompiler/control_flow.py", "intervals"),
+    ("androguard/decompiler/control_flow.py", "derived_sequence"),
+    ("androguard/decompiler/graph.py", "Graph.add_edge"),
+    ("androguard/decompiler/graph.py", "Graph.all_preds"),
+    ("androguard/decompiler/graph.py", "Graph.compute_rpo"),
+    ("androguard/decompiler/graph.py", "Graph.post_order"),
+    ("androguard/decompiler/node.py", "Interval.__init__"),
+    ("androguard/decompiler/node.py", "Interval.__contains__"),
     ("androguard/decompiler/control_flow.py", "if_struct"),
     ("androguard/decompiler/control_flow.py", "switch_struct"),
     ("androguard/decompiler/dataflow.py", "place_declarations"),
@@ -166,7 +174,7 @@ def generated_files(ck, tmp):
         return []
     try:
         from harness import c22_gen
-        blobs = c22_gen.generate(random.Random("C22/gen/%d" % ck.seed), 6 if ck.quick else 40)
+        blobs = c22_gen.generate(random.Random("C22/gen/%d" % ck.seed), 6 if ck.quick else 24)
     except Exception as e:  # noqa: the assembler is somebody else's file; never a verdict
         ck.notes.append("dexasm present but unusable for C22: %s: %s" % (type(e).__name__, e))
         return []
@@ -440,14 +448,14 @@ def gen_site_cases(ck, n):
 
 
 def leg_t(ck, pool, drv, salted):
-    cases, reqs = gen_site_cases(ck, 60 if ck.quick else 400)
+    cases, reqs = gen_site_cases(ck, 60 if ck.quick else 300)
     flat = [l for ls in reqs for l in ls]
     model = drv.ask(flat)
     mrep, i = [], 0
     for ls in reqs:
         mrep.append("|".join(model[i:i + len(ls)])); i += len(ls)
     rng = random.Random("C22/tcfg/%d" % ck.seed)
-    ncfg = 3 if ck.quick else 8
+    ncfg = 3 if ck.quick else 6
     cfgs = [(rng.randrange(2 ** 32), ("%08x" % rng.randrange(2 ** 32)) if salted else None) for _ in range(ncfg)]
     outs = pool.map([({"mode": "sites", "cases": cases}, hs, salt) for hs, salt in cfgs])
     for (hs, salt), out in zip(cfgs, outs):
@@ -487,7 +495,8 @@ def _run(ck, pool, drv):
                "of other classes before / after the source requests. "
                "distinct = distinct method texts (sha256) of the first configuration, exceptions excluded")
     salted = hook_present(pool)
-    ncfg = 8 if ck.quick else 64
+    # thorough: every order of ORDERS once (18 configurations; it was 64, which took 90 minutes on a loaded machine)
+    ncfg = 8 if ck.quick else len(ORDERS)
     if ck.quick and getattr(ck, "escalated", False):
         ncfg = 16        # a pinned function changed: all orders of ORDERS even in the quick tier
     cfgs = configs(ck, ncfg)
@@ -525,8 +534,8 @@ def _run(ck, pool, drv):
         sweep(ck, pool, big, cfgs, 40, include, "big")
     else:
         sweep(ck, pool, small, cfgs, None, {}, "small")
-        sweep(ck, pool, big, cfgs, 250, include, "big")
-        sweep(ck, pool, big, cfgs[:4], None, {}, "bigfull")
+        sweep(ck, pool, big, cfgs, 200, include, "big")
+        sweep(ck, pool, big, cfgs[:3], None, {}, "bigfull")
     ck.samples.extend([
         {"configs": ["hashseed=%s salt=%s order=%s" % c for c in cfgs[:4]]},
         {"files": [os.path.relpath(p, fw.REPO) for p, _ in files][:12], "duplicate_dex_skipped": dups},
@@ -549,10 +558,19 @@ def _run(ck, pool, drv):
         "deterministic given deterministic inputs and is covered by the search only",
         "completeness of the site inventory rests on the AST scan gen/ordersites.py (flow-insensitive set-type "
         "inference inside androguard/decompiler)",
-        "intervals (control_flow.py) is modelled for a first-level graph (Interval.__contains__ = membership) and proved "
-        "total with an order-free partition (intervals_spec, intervals_partition_order_irrelevant; correspondence "
-        "stream site-intv on rooted graphs); derived_sequence — the iteration over the collapsed interval graphs, whose "
-        "nodes are Interval objects with nested membership — is not modelled",
+        "intervals / derived_sequence (control_flow.py; no hash iteration inside) are modelled line by line including "
+        "the interval graphs, their recorded edges and compute_rpo (Model/Intervals.lean, Model/DerivedSeq.lean; "
+        "correspondence streams site-intv and site-dseq on rooted graphs, every level compared) and proved: intervals "
+        "total with an order-free partition (intervals_spec, intervals_partition_order_irrelevant); derived_sequence "
+        "terminates within sum|all_preds|+1 calls of intervals on every well-formed graph, reducible or not "
+        "(derived_sequence_terminates; interval_graph_fewer_edges, interval_graph_wellformed, intervals_disjoint) and "
+        "reads the numbering and the predecessor-list orders of the first graph only in the insertion order of the "
+        "first-level contents (derived_sequence_order_irrelevant); it DOES depend on the insertion order of graph.nodes, "
+        "a list (derived_sequence_nodes_order_matters, replayed on the real code). Well-formed = rpo[0] is the entry, "
+        "every other node has a predecessor and is in rpo, graph.nodes has no duplicate (true of a graph whose nodes are "
+        "all reachable). NOT proved: the consumers of the derived sequence (loop_type, the part of loop_follow outside "
+        "loop_follow_order_irrelevant, if_struct / switch_struct follow-node choice, whose unresolved sets are covered "
+        "by independent_updates_order_irrelevant only)",
     ]
     ck.notes.append("corpus+T+sweep %.0fs; %d distinct-DEX files (%d duplicates skipped)" % (time.time() - t0, len(files), dups))
     if not salted:
